@@ -81,8 +81,10 @@ type casePlan struct {
 }
 
 func isLateKind(k string) bool { return k == "wlate" || k == "wlatecode" }
-func isWrapped(k string) bool  { return k == "wfast" || k == "wedge" || k == "wlate" || k == "wlatecode" }
-func isDirect(k string) bool   { return strings.HasPrefix(k, "direct") }
+func isWrapped(k string) bool {
+	return k == "wfast" || k == "wedge" || k == "wlate" || k == "wlatecode"
+}
+func isDirect(k string) bool { return strings.HasPrefix(k, "direct") }
 
 var codes = []int{408, 503, 504, 500, 404, 200, 299, 418}
 
@@ -275,12 +277,14 @@ func (cs *caseState) openDueLocked(all bool) {
 	k := 0
 	for _, st := range cs.pending {
 		if all || st.releaseAt <= cs.clock {
-			st.gateOpen = true
 			if isWrapped(st.plan.Kind) {
 				cs.gatedW--
 				cs.opensW++
 			}
-			close(st.gate)
+			if !st.gateOpen { // (a request dispatched twice by a broken server registers twice)
+				st.gateOpen = true
+				close(st.gate)
+			}
 			continue
 		}
 		cs.pending[k] = st
